@@ -454,6 +454,34 @@ M("c09-userdata-shared", "C09", "json_object.c",
 M("c09-benign-early-null", "C09", "json_object.c",
   "\tif (!jso1 || !jso2)\n\t\treturn 0;\n\n\tif (jso1->o_type != jso2->o_type)", "\tif (jso1 == NULL)\n\t\treturn 0;\n\tif (jso2 == NULL)\n\t\treturn 0;\n\n\tif (jso1->o_type != jso2->o_type)", expect="silent")
 
+# ---- C02 -------------------------------------------------------------------------------------
+M("c02-del-not-escaped", "C02", "json_object.c",
+  "\t\t\tif (c < ' ')\n\t\t\t{\n\t\t\t\tchar sbuf[7];", "\t\t\tif (c < ' ' && c != 0x1f)\n\t\t\t{\n\t\t\t\tchar sbuf[7];", needle="0x1f")
+M("c02-wrong-escape-letter", "C02", "json_object.c",
+  "\t\t\telse if (c == '\\f')\n\t\t\t\tprintbuf_memappend(pb, \"\\\\f\", 2);", "\t\t\telse if (c == '\\f')\n\t\t\t\tprintbuf_memappend(pb, \"\\\\v\", 2);", needle="0x0c")
+M("c02-hex-uppercase-shift", "C02", "json_object.c",
+  "json_hex_chars[c >> 4],\n\t\t\t\t         json_hex_chars[c & 0xf]);", "json_hex_chars[c >> 4],\n\t\t\t\t         json_hex_chars[c & 0x7]);", needle="C02.R1")
+M("c02-noslash-affects-backslash", "C02", "json_object.c",
+  "\t\t\tif ((flags & JSON_C_TO_STRING_NOSLASHESCAPE) && c == '/')", "\t\t\tif ((flags & JSON_C_TO_STRING_NOSLASHESCAPE) && (c == '/' || c == '\\\\'))", needle="C02.R1")
+M("c02-pretty-drops-comma", "C02", "json_object.c",
+  "\t\tif (had_children)\n\t\t{\n\t\t\tprintbuf_strappend(pb, \",\");\n\t\t}\n\t\tif (flags & JSON_C_TO_STRING_PRETTY)\n\t\t\tprintbuf_strappend(pb, \"\\n\");\n\t\thad_children = 1;\n\t\tif (flags & JSON_C_TO_STRING_SPACED && !(flags & JSON_C_TO_STRING_PRETTY))\n\t\t\tprintbuf_strappend(pb, \" \");\n\t\tindent(pb, level + 1, flags);\n\t\tif (flags & JSON_C_TO_STRING_COLOR)\n\t\t\tprintbuf_strappend(pb, ANSI_COLOR_FG_BLUE);",
+  "\t\tif (had_children && !(flags & JSON_C_TO_STRING_PRETTY_TAB))\n\t\t{\n\t\t\tprintbuf_strappend(pb, \",\");\n\t\t}\n\t\tif (flags & JSON_C_TO_STRING_PRETTY)\n\t\t\tprintbuf_strappend(pb, \"\\n\");\n\t\thad_children = 1;\n\t\tif (flags & JSON_C_TO_STRING_SPACED && !(flags & JSON_C_TO_STRING_PRETTY))\n\t\t\tprintbuf_strappend(pb, \" \");\n\t\tindent(pb, level + 1, flags);\n\t\tif (flags & JSON_C_TO_STRING_COLOR)\n\t\t\tprintbuf_strappend(pb, ANSI_COLOR_FG_BLUE);",
+  needle="C02.R2")
+M("c02-color-null-skipped", "C02", "json_object.c",
+  "\t\t\tif (flags & JSON_C_TO_STRING_COLOR)\n\t\t\t\tprintbuf_strappend(pb, ANSI_COLOR_FG_MAGENTA);\n\t\t\tprintbuf_strappend(pb, \"null\");\n\t\t\tif (flags & JSON_C_TO_STRING_COLOR)\n\t\t\t\tprintbuf_strappend(pb, ANSI_COLOR_RESET);\n\t\t} else if (iter.val->_to_json_string",
+  "\t\t\tif (flags & JSON_C_TO_STRING_COLOR)\n\t\t\t\tprintbuf_strappend(pb, ANSI_COLOR_FG_MAGENTA);\n\t\t\telse\n\t\t\t\tprintbuf_strappend(pb, \"null\");\n\t\t\tif (flags & JSON_C_TO_STRING_COLOR)\n\t\t\t\tprintbuf_strappend(pb, ANSI_COLOR_RESET);\n\t\t} else if (iter.val->_to_json_string",
+  needle="C02.R2")
+M("c02-child-failure-ignored", "C02", "json_object.c",
+  "\t\t} else if (iter.val->_to_json_string(iter.val, pb, level + 1, flags) < 0)\n\t\t\treturn -1;", "\t\t} else\n\t\t\titer.val->_to_json_string(iter.val, pb, level + 1, flags);", needle="C02.R3")
+M("c02-length-on-failure", "C02", "json_object.c",
+  "\t\tif (jso->_to_json_string(jso, jso->_pb, 0, flags) >= 0)\n\t\t{\n\t\t\ts = (size_t)jso->_pb->bpos;\n\t\t\tr = jso->_pb->buf;\n\t\t}",
+  "\t\tjso->_to_json_string(jso, jso->_pb, 0, flags);\n\t\ts = (size_t)jso->_pb->bpos;\n\t\tr = jso->_pb->buf;", needle="C02.R3")
+M("c02-uint-signed-format", "C02", "json_object.c",
+  "snprintf(sbuf, sizeof(sbuf), \"%\" PRIu64, JC_INT(jso)->cint.c_uint64);", "snprintf(sbuf, sizeof(sbuf), \"%\" PRId64, JC_INT(jso)->cint.c_uint64);", needle="C02.R4")
+M("c02-benign-escape-reorder", "C02", "json_object.c",
+  "\t\t\tif (c == '\\b')\n\t\t\t\tprintbuf_memappend(pb, \"\\\\b\", 2);\n\t\t\telse if (c == '\\n')\n\t\t\t\tprintbuf_memappend(pb, \"\\\\n\", 2);",
+  "\t\t\tif (c == '\\n')\n\t\t\t\tprintbuf_memappend(pb, \"\\\\n\", 2);\n\t\t\telse if (c == '\\b')\n\t\t\t\tprintbuf_memappend(pb, \"\\\\b\", 2);", expect="silent")
+
 
 def sh(cmd, **kw):
     return subprocess.run(cmd, shell=isinstance(cmd, str), stdout=subprocess.PIPE, stderr=subprocess.STDOUT, text=True, **kw)
